@@ -28,7 +28,19 @@ type User struct {
 	DeletedAt gorm.DeletedAt
 }
 
+// Pet has the same Go field names as User mapped to other columns.
+type Pet struct {
+	ID        uint
+	Name      string `gorm:"column:pet_name"`
+	Age       int    `gorm:"column:pet_age"`
+	CompanyID uint
+	Company   Company
+	DeletedAt gorm.DeletedAt
+}
+
 const schemaSQL = `
+CREATE TABLE pets (id integer primary key autoincrement, pet_name text, pet_age integer, company_id integer, deleted_at datetime);
+INSERT INTO pets (id,pet_name,pet_age,company_id,deleted_at) VALUES (1,'w',3,1,NULL),(2,'rex',30,2,NULL),(3,'n',5,1,NULL);
 CREATE TABLE companies (id integer primary key autoincrement, name text);
 CREATE TABLE users (id integer primary key autoincrement, name text, age integer, company_id integer, deleted_at datetime);
 INSERT INTO companies (id,name) VALUES (1,'pc'),(2,'jr'),(3,'other');
@@ -51,6 +63,8 @@ const (
 	tThor  = 2 // thorough only
 	// tInvalid: an argument the call cannot translate (it records an error); only in the PI blocks
 	tInvalid = 3
+	// tBlock: only in the blocks that name the call explicitly (PM two models, PQ repeated call kinds)
+	tBlock = 4
 )
 
 type op struct {
@@ -97,6 +111,8 @@ func retCols(n ...string) clause.Returning {
 }
 
 type ctxKey struct{}
+
+const settingKey = "c06:k"
 
 var ops = []op{
 	// WHERE
@@ -209,6 +225,28 @@ var ops = []op{
 		return db.Clauses(badExpr{})
 	}},
 
+	// Go field names (resolved per model when the statement is built), second model, repeated call kinds
+	{Label: `Select("Name")`, Kind: "SELECT", Tier: tBlock, Apply: func(db *gorm.DB, c *actx) *gorm.DB { return db.Select("Name") }},
+	{Label: `Select("Name","Age")`, Kind: "SELECT", Tier: tBlock, Apply: func(db *gorm.DB, c *actx) *gorm.DB { return db.Select("Name", "Age") }},
+	{Label: `Select([]string{"Age"})`, Kind: "SELECT", Tier: tBlock, Apply: func(db *gorm.DB, c *actx) *gorm.DB { return db.Select([]string{"Age"}) }},
+	{Label: `Omit("Age")`, Kind: "OMIT", Tier: tBlock, Apply: func(db *gorm.DB, c *actx) *gorm.DB { return db.Omit("Age") }},
+	{Label: `Omit("Name","CompanyID")`, Kind: "OMIT", Tier: tBlock, Apply: func(db *gorm.DB, c *actx) *gorm.DB { return db.Omit("Name", "CompanyID") }},
+	{Label: `Model(&Pet{})`, Kind: "MODEL", Tier: tBlock, IsModel: true, Apply: func(db *gorm.DB, c *actx) *gorm.DB { return db.Model(&Pet{}) }},
+	{Label: `Table("pets")`, Kind: "TABLE", Tier: tBlock, Apply: func(db *gorm.DB, c *actx) *gorm.DB { return db.Table("pets") }},
+	{Label: `Table("pets AS p")`, Kind: "TABLE", Tier: tBlock, Apply: func(db *gorm.DB, c *actx) *gorm.DB { return db.Table("pets AS p") }},
+	{Label: `Table("(SELECT * FROM users WHERE age > ?) AS u",18)`, Kind: "TABLE", Tier: tBlock, Apply: func(db *gorm.DB, c *actx) *gorm.DB {
+		return db.Table("(SELECT * FROM users WHERE age > ?) AS u", 18)
+	}},
+	{Label: `Table("main.users")`, Kind: "TABLE", Tier: tBlock, Apply: func(db *gorm.DB, c *actx) *gorm.DB { return db.Table("main.users") }},
+	{Label: `Limit(2)`, Kind: "LIMIT", Tier: tBlock, Apply: func(db *gorm.DB, c *actx) *gorm.DB { return db.Limit(2) }},
+	{Label: `Clauses(Limit{Limit:&4,Offset:1})`, Kind: "LIMIT", Tier: tBlock, Apply: func(db *gorm.DB, c *actx) *gorm.DB {
+		n := 4
+		return db.Clauses(clause.Limit{Limit: &n, Offset: 1})
+	}},
+	{Label: `Set("c06:k","v1")`, Kind: "SETTINGS", Tier: tBlock, Apply: func(db *gorm.DB, c *actx) *gorm.DB { return db.Set(settingKey, "v1") }},
+	{Label: `Set("c06:k","v2")`, Kind: "SETTINGS", Tier: tBlock, Apply: func(db *gorm.DB, c *actx) *gorm.DB { return db.Set(settingKey, "v2") }},
+	{Label: `InstanceSet("c06:k","i1")`, Kind: "SETTINGS", Tier: tBlock, Apply: func(db *gorm.DB, c *actx) *gorm.DB { return db.InstanceSet(settingKey, "i1") }},
+
 	// a reusable handle made in the middle of a chain
 	{Label: `Session(&Session{})`, Kind: "SESSION", Tier: tCross, Apply: func(db *gorm.DB, c *actx) *gorm.DB { return db.Session(&gorm.Session{}) }},
 	{Label: `WithContext(ctx)`, Kind: "SESSION", Tier: tThor, Apply: func(db *gorm.DB, c *actx) *gorm.DB {
@@ -236,7 +274,7 @@ func init() {
 }
 
 // kinds in a fixed order
-var kinds = []string{"WHERE", "SELECT", "OMIT", "ORDER", "LIMIT", "GROUP", "HAVING", "JOINS", "DISTINCT", "UNSCOPED", "SCOPES", "RETURNING", "LOCKING", "ONCONFLICT", "TABLE", "MODEL", "PRELOAD", "SESSION"}
+var kinds = []string{"WHERE", "SELECT", "OMIT", "ORDER", "LIMIT", "GROUP", "HAVING", "JOINS", "DISTINCT", "UNSCOPED", "SCOPES", "RETURNING", "LOCKING", "ONCONFLICT", "TABLE", "MODEL", "PRELOAD", "SESSION", "SETTINGS"}
 
 func opsOf(kind string, maxTier int) []int {
 	var out []int
@@ -319,6 +357,9 @@ const (
 	fTransaction     // SQLite only: Transaction(func(tx) { tx.Find })
 	fAssocFind
 	fAssocCount
+	fFindPets // the same handle used with another model
+	fCountPets
+	fCreatePet // DryRun only
 	fHandle    // the chain is not finished but turned into a reusable handle with Session(&Session{})
 	fCountFind // real only: Count and then Find on the same chain object (pagination idiom)
 	fModelFind // internal: the Find half of fCountFind replayed alone
@@ -465,6 +506,22 @@ var finishers = []finisher{
 		obs(&gorm.DB{Config: db.Config, Error: a.Error, RowsAffected: n, Statement: &gorm.Statement{}})
 		return nil
 	}},
+	fFindPets: {Label: "Find(&[]Pet{})", Dry: true, Real: true, Run: func(db *gorm.DB, hm bool, obs func(*gorm.DB)) *gorm.DB {
+		tx := db.Find(&[]Pet{})
+		obs(tx)
+		return tx
+	}},
+	fCountPets: {Label: "Model(&Pet{}).Count(&n)", Dry: true, Real: true, Run: func(db *gorm.DB, hm bool, obs func(*gorm.DB)) *gorm.DB {
+		var n int64
+		tx := db.Model(&Pet{}).Count(&n)
+		obs(tx)
+		return tx
+	}},
+	fCreatePet: {Label: `Create(&Pet{Name:"p",Age:2})`, Dry: true, Run: func(db *gorm.DB, hm bool, obs func(*gorm.DB)) *gorm.DB {
+		tx := db.Create(&Pet{Name: "p", Age: 2})
+		obs(tx)
+		return tx
+	}},
 	fHandle: {Label: "Session(&Session{}) [becomes a handle]", Dry: true, Real: true},
 	fCountFind: {Label: "Count(&n) then Find(&[]User{}) on the same chain", Real: true, Run: func(db *gorm.DB, hm bool, obs func(*gorm.DB)) *gorm.DB {
 		var n int64
@@ -503,8 +560,8 @@ func init() {
 }
 
 // every finisher of the alphabet, for direct execution on a live reusable handle
-var dryHandleFins = []int{fFind, fFirst, fCount, fUpdate, fDelete, fCreate, fTake, fLast, fPluck, fScan, fFirstOrInit, fSave, fFindInBatches, fFirstOrCreate, fCreateInBatches, fAssocFind, fAssocCount}
-var realHandleFins = []int{fFind, fFirst, fCount, fTake, fLast, fPluck, fScan, fFirstOrInit, fRows, fRow, fFindInBatches, fTransaction, fAssocFind, fAssocCount}
+var dryHandleFins = []int{fFind, fFirst, fCount, fUpdate, fDelete, fCreate, fTake, fLast, fPluck, fScan, fFirstOrInit, fSave, fFindInBatches, fFirstOrCreate, fCreateInBatches, fAssocFind, fAssocCount, fFindPets}
+var realHandleFins = []int{fFind, fFirst, fCount, fTake, fLast, fPluck, fScan, fFirstOrInit, fRows, fRow, fFindInBatches, fTransaction, fAssocFind, fAssocCount, fFindPets}
 
 // probe finishers executed directly on reusable handles
 var dryProbes = []int{fFind, fUpdate, fCreate}
